@@ -573,18 +573,31 @@ PosDests(dests, probs) ==
     IN IF probs[m] = DEN /\ (\A a \in 1..(m-1) : probs[a] = 0) THEN {dests[m]}
        ELSE {dests[a] : a \in {b \in 1..m : probs[b] > 0}}
 
-MinimalIn(s, ds, lb) ==
-    \* destination s.d is in ds and minimises the recorded waiting line (jsq) / population (lb)
-    LET cnt == s.wq[1]
-        isv == s.wq[2]
-        size(m) == IF lb THEN cnt[m] ELSE cnt[m] - isv[m]
-    IN InSeq(ds, s.d) /\ s.d \in DOMAIN cnt /\ \A a \in DOMAIN ds : size(s.d) <= size(ds[a])
+\* Waiting line / population of node m "at that instant".  For the first routing decision of an event (the
+\* end-of-service that opens it) the instant is the pre-state, and the waiting line is computed from the true
+\* configuration: customers present minus customers holding a server or a slot (blocked ones included), not
+\* from the engine's own number_in_service counter.  For later decisions of a cascade the values recorded by
+\* the routing wrapper at the call are used.
+TrueLine(pre, m, lb) ==
+    LET here == {j \in DOMAIN pre.cu : pre.cu[j].loc = m}
+        served == {j \in here : pre.cu[j].srv > 0 \/ pre.cu[j].srv = -1 \/ (pre.nodes[m].c >= INF /\ pre.cu[j].ss # NONE)}
+    IN IF lb THEN Cardinality(here) ELSE Cardinality(here) - Cardinality(served)
 
-FirstMinimal(s, ds, lb) ==
-    LET cnt == s.wq[1]
-        isv == s.wq[2]
-        size(m) == IF lb THEN cnt[m] ELSE cnt[m] - isv[m]
-    IN \A a \in DOMAIN ds : ds[a] = s.d => \A b \in 1..(a-1) : size(ds[b]) > size(s.d)
+SizeAt(pre, post, a, m, lb) ==
+    LET s == post.steps[a]
+        first == ~\E b \in 1..(a-1) : post.steps[b].k \in {"release", "accept", "block", "attach", "detach", "interrupt"}
+    IN IF first /\ m \in 1..NN(pre) THEN TrueLine(pre, m, lb)
+       ELSE IF lb THEN s.wq[1][m] ELSE s.wq[1][m] - s.wq[2][m]
+
+MinimalIn(pre, post, a, ds, lb) ==
+    LET s == post.steps[a]
+    IN InSeq(ds, s.d) /\ s.d \in DOMAIN s.wq[1]
+       /\ \A b \in DOMAIN ds : ds[b] \in DOMAIN s.wq[1] /\ SizeAt(pre, post, a, s.d, lb) <= SizeAt(pre, post, a, ds[b], lb)
+
+FirstMinimal(pre, post, a, ds, lb) ==
+    LET s == post.steps[a]
+    IN \A b \in DOMAIN ds : ds[b] = s.d =>
+          \A c \in 1..(b-1) : SizeAt(pre, post, a, ds[c], lb) > SizeAt(pre, post, a, s.d, lb)
 
 \* is routing decision at step index a allowed?  (s.x = class whose router decided)
 RouteOk(cfg, pre, post, rt, a) ==
@@ -612,8 +625,8 @@ RouteOk(cfg, pre, post, rt, a) ==
                   ELSE IF nr.t = "direct" THEN s.d = nr.to
                   ELSE IF nr.t = "leave" THEN s.d = EXIT
                   ELSE IF nr.t \in {"jsq", "lb"} THEN
-                       MinimalIn(s, nr.dests, nr.t = "lb")
-                       /\ (nr.tie = "order" => FirstMinimal(s, nr.dests, nr.t = "lb"))
+                       MinimalIn(pre, post, a, nr.dests, nr.t = "lb")
+                       /\ (nr.tie = "order" => FirstMinimal(pre, post, a, nr.dests, nr.t = "lb"))
                   ELSE \* cycle
                        s.d = nr.cyc[((rt[k][s.n] + earlier) % Len(nr.cyc)) + 1]
           ELSE IF r.kind = "pb" THEN
@@ -622,8 +635,8 @@ RouteOk(cfg, pre, post, rt, a) ==
           ELSE \* fpb
                IF rte = <<>> THEN s.d = EXIT
                ELSE /\ InSeq(rte[1], s.d)
-                    /\ (r.choice = "jsq" => MinimalIn(s, rte[1], FALSE))
-                    /\ (r.choice = "lb" => MinimalIn(s, rte[1], TRUE))
+                    /\ (r.choice = "jsq" => MinimalIn(pre, post, a, rte[1], FALSE))
+                    /\ (r.choice = "lb" => MinimalIn(pre, post, a, rte[1], TRUE))
                     /\ (IsLive(post, s.i) =>
                           LET left == SelectSeq(rte[1], LAMBDA m : m # s.d)
                           IN CuOf(post, s.i).route = IF r.rule = "any" \/ left = <<>> THEN Tail(rte)
